@@ -205,6 +205,12 @@ func (e *Engine) verifyFuncOpts(key string, o RunOpts) (fr *FuncResult) {
 		}
 		for k, en := range ct.Ensures {
 			t := x.evalBool(env, en.Expr)
+			if parts := x.cutParts[t]; len(parts) > 0 && len(cases) == 0 {
+				for j, pt := range parts {
+					vc.oblige(fmt.Sprintf("%s#post.%d/part%d", key, k+1, j+1), "post", outReach, pt, fmt.Sprintf("%s:%d", shortPath(ct.File), en.Line))
+				}
+				continue
+			}
 			if len(cases) == 0 {
 				vc.oblige(fmt.Sprintf("%s#post.%d", key, k+1), "post", outReach, t, fmt.Sprintf("%s:%d", shortPath(ct.File), en.Line))
 				continue
